@@ -145,6 +145,24 @@ func (x *Exec) doCall(s *State, call *ssa.CallCommon, fnv Val, args []Val, in *s
 				kind = calleeInline
 			}
 		}
+		if kind == calleeDynamic && x.c != nil {
+			// a function-typed parameter declared `callback`: no modelled effect
+			if u, ok := call.Value.(*ssa.UnOp); ok {
+				if al, ok := u.X.(*ssa.Alloc); ok {
+					for _, cb := range x.c.Callbacks {
+						if al.Comment == cb {
+							x.E.Note("calls of callback parameter %s in %s are assumed to have no effect on modelled state", cb, x.fn.String())
+							return x.freshResults(s, sig, cb), true
+						}
+					}
+				}
+			}
+		}
+		if kind == calleeDynamic {
+			if res, ok, handled := x.dispatchKnownFuncs(s, call, fnv, args); handled {
+				return res, ok
+			}
+		}
 		if kind == calleeDynamic {
 			// function-typed struct field with a field contract
 			if fc := x.fieldContract(call.Value); fc != nil {
@@ -712,23 +730,174 @@ func (x *Exec) applyFieldContract(s *State, fc *FieldContract, call *ssa.CallCom
 	fnT := x.toTerm(s, fnv, call.Value.Type())
 	var as []*smt.Term
 	as = append(as, fnT)
+	vars := map[string]SVal{"self": {T: fnT, GT: call.Value.Type()}}
 	for i, a := range args {
-		as = append(as, x.toTerm(s, a, call.Args[i].Type()))
+		t := x.toTerm(s, a, call.Args[i].Type())
+		as = append(as, t)
+		name := fmt.Sprintf("arg%d", i)
+		if i < len(fc.ParamNames) {
+			name = fc.ParamNames[i]
+		}
+		vars[name] = SVal{T: t, GT: call.Args[i].Type()}
+	}
+	pre := copyHeap(s.heap)
+	env := &SpecEnv{X: x, S: s, Old: pre, Vars: vars, Pkg: x.fn.Pkg.Pkg, Fn: x.fn, CalleeView: true}
+	label := x.instrLabel(x.curInstr, "call")
+	for i, r := range fc.Requires {
+		goal := x.evalBool(env, r.E)
+		x.addObl(s, "pre", fmt.Sprintf("%s:field.%s:%s", label, fc.Field.Name(), clauseLabel(r, i)), goal, x.c.Props, r.Src)
+		s.assume(goal)
 	}
 	if !fc.Pure {
-		x.havocAllHeap(s, "fld")
+		if fc.AssignsSet {
+			for _, a := range fc.Assigns {
+				preEnv := *env
+				preEnv.S = &State{heap: pre}
+				x.havocTargetIn(s, &preEnv, a, "fld")
+			}
+		} else {
+			x.havocAllHeap(s, "fld")
+		}
 	}
 	var vals []Val
+	results := map[string]SVal{}
 	for i := 0; i < sig.Results().Len(); i++ {
 		rt := sig.Results().At(i).Type()
 		var t *smt.Term
-		if fc.Pure {
+		if fc.Pure && len(fc.Ensures) == 0 {
 			t = smt.App(fmt.Sprintf("fieldfn$%s$%d", fc.Field.Name(), i), x.E.SortOf(rt), as...)
 			x.typeFacts(s, t, rt, 0)
 		} else {
 			t = x.freshOf(s, rt, "r$"+fc.Field.Name())
 		}
+		name := fmt.Sprintf("result%d", i)
+		if sig.Results().Len() == 1 {
+			name = "result"
+		}
+		if i < len(fc.ResNames) {
+			name = fc.ResNames[i]
+		}
+		results[name] = SVal{T: t, GT: rt}
 		vals = append(vals, TermVal{t})
 	}
+	postEnv := *env
+	postEnv.Results = results
+	for _, en := range fc.Ensures {
+		s.assume(x.evalBool(&postEnv, en.E))
+	}
 	return resultVal(sig, vals), true
+}
+
+// dispatchKnownFuncs handles a call through a function value by case analysis over the module functions under
+// contract that have the same signature: if the callee value equals function F, F's contract applies.
+// Preconditions become obligations guarded by the equality; effects are over-approximated by the union of the
+// candidates' assigns clauses. If the value equals none of them the results stay unconstrained.
+func (x *Exec) dispatchKnownFuncs(s *State, call *ssa.CallCommon, fnv Val, args []Val) (Val, bool, bool) {
+	sig := call.Signature()
+	var cands []*Contract
+	for _, c := range x.E.SortedContracts() {
+		if c.Fn == nil && !c.Trusted {
+			continue
+		}
+		cs, ok := c.Obj.Type().(*types.Signature)
+		if !ok || cs.Recv() != nil {
+			continue
+		}
+		if !x.E.inModule(c.Obj.Pkg()) {
+			continue
+		}
+		if types.Identical(types.NewSignatureType(nil, nil, nil, cs.Params(), cs.Results(), cs.Variadic()), types.NewSignatureType(nil, nil, nil, sig.Params(), sig.Results(), sig.Variadic())) {
+			cands = append(cands, c)
+		}
+	}
+	if len(cands) == 0 {
+		return nil, false, false
+	}
+	fnT := x.toTerm(s, fnv, call.Value.Type())
+	x.E.Note("call through a function value in %s: resolved by case analysis over %d module functions of the same signature", x.fn.String(), len(cands))
+	pre := copyHeap(s.heap)
+	label := x.instrLabel(x.curInstr, "call")
+	type candEnv struct {
+		c    *Contract
+		vars map[string]SVal
+		eq   *smt.Term
+	}
+	var ces []candEnv
+	for _, c := range cands {
+		x.E.usedContracts[c] = true
+		vars := map[string]SVal{}
+		for i, p := range c.Params {
+			if i < len(args) {
+				vars[c.ParamNm[i]] = SVal{T: x.toTerm(s, args[i], p.Type()), GT: p.Type()}
+			}
+		}
+		var fc *smt.Term
+		if f := x.E.Prog.FuncValue(c.Obj); f != nil {
+			fc = x.E.FnConst(f)
+		} else {
+			continue
+		}
+		eq := smt.Eq(fnT, fc)
+		env := &SpecEnv{X: x, S: s, Old: pre, Vars: vars, Pkg: c.SpecPkg, Fn: x.fn, CalleeView: true}
+		for i, r := range c.Requires {
+			goal := smt.Implies(eq, x.evalBool(env, r.E))
+			x.addObl(s, "pre", fmt.Sprintf("%s:dyn:%s:%s", label, shortObjName(c.Obj), clauseLabel(r, i)), goal, x.c.Props, r.Src)
+			s.assume(goal)
+		}
+		ces = append(ces, candEnv{c, vars, eq})
+	}
+	tag := "d" + strconv.Itoa(x.ordinal("callsite"))
+	all := false
+	for _, ce := range ces {
+		if ce.c.Pure {
+			continue
+		}
+		if !ce.c.AssignsSet {
+			all = true
+			break
+		}
+	}
+	if all {
+		x.havocAllHeap(s, tag)
+	} else {
+		for _, ce := range ces {
+			if ce.c.Pure {
+				continue
+			}
+			preEnv := &SpecEnv{X: x, S: &State{heap: pre}, Old: pre, Vars: ce.vars, Pkg: ce.c.SpecPkg, Fn: x.fn, CalleeView: true}
+			for _, a := range ce.c.Assigns {
+				if cl, ok := a.(*spec.Call); ok {
+					if id, ok := cl.Fun.(*spec.Ident); ok && id.Name == "post" {
+						x.unsupported("post() target in a contract used through a function value")
+						continue
+					}
+				}
+				x.havocTargetIn(s, preEnv, a, tag)
+			}
+		}
+	}
+	var vals []Val
+	var rterms []*smt.Term
+	for i := 0; i < sig.Results().Len(); i++ {
+		t := x.freshOf(s, sig.Results().At(i).Type(), "r$dyn")
+		rterms = append(rterms, t)
+		vals = append(vals, TermVal{t})
+	}
+	allocPre, okA := s.heap["$alloc"]
+	if !okA {
+		allocPre = x.entryAlloc()
+	}
+	for _, ce := range ces {
+		results := map[string]SVal{}
+		for i := range rterms {
+			if i < len(ce.c.ResultNm) {
+				results[ce.c.ResultNm[i]] = SVal{T: rterms[i], GT: sig.Results().At(i).Type()}
+			}
+		}
+		env := &SpecEnv{X: x, S: s, Old: pre, Vars: ce.vars, Results: results, Pkg: ce.c.SpecPkg, Fn: x.fn, CalleeView: true, AllocPre: allocPre}
+		for _, en := range ce.c.Ensures {
+			s.assume(smt.Implies(ce.eq, x.evalBool(env, en.E)))
+		}
+	}
+	return resultVal(sig, vals), true, true
 }
